@@ -60,7 +60,23 @@ pub fn gen_elf(rng: &mut Rng, trailing_nonload: bool) -> Vec<u8> {
             _ => rng.range(1, 3000) as u32,
         };
         let memsz = filesz + if rng.chance(1, 2) { 0 } else { rng.below(600) as u32 };
-        let data: Vec<u8> = (0..filesz).map(|_| rng.u8()).collect();
+        // contents: random, or long runs of one byte (0x00 / 0xff / other) so that "skip the zeros" shortcuts show
+        let data: Vec<u8> = match rng.below(6) {
+            0 => vec![0u8; filesz as usize],
+            1 => vec![0xffu8; filesz as usize],
+            2 => {
+                let mut v: Vec<u8> = Vec::with_capacity(filesz as usize);
+                while v.len() < filesz as usize {
+                    let b = *rng.pick(&[0u8, 0, 0xff, 0x41, 0x69]);
+                    for _ in 0..rng.range(1, 64) {
+                        v.push(if rng.chance(1, 8) { rng.u8() } else { b });
+                    }
+                }
+                v.truncate(filesz as usize);
+                v
+            }
+            _ => (0..filesz).map(|_| rng.u8()).collect(),
+        };
         segs.push(Seg { ty: 1, off: 0, vaddr, filesz, memsz });
         blobs.push((k, data));
         vaddr += memsz + if rng.chance(1, 2) { 0 } else { rng.below(200) as u32 };
@@ -75,7 +91,9 @@ pub fn gen_elf(rng: &mut Rng, trailing_nonload: bool) -> Vec<u8> {
         let o = (rng.below(room as u64 + 1) as u32) & !3;
         // entry values incl. ones whose sum with the load base carries into the top byte
         for e in 0..got_entries {
-            let v: u32 = match rng.below(4) {
+            let v: u32 = match rng.below(5) {
+                // boundary values: NULL, tiny offsets, sums that are 0 / 2^32-1 / cross 2^31, already-relocated look-alikes
+                4 => *rng.pick(&[0u32, 0, 1, 2, 4, 0xffbe9700, 0xffbe96ff, 0x80000000, 0x7fbe9700, 0xffffffff, 0x7fffffff, 0x416900, 0x00be9700, 0xff000000]),
                 0 => 0xffbe9700 + rng.below(0x100) as u32,
                 1 => 0xfffffff0 + rng.below(16) as u32,
                 2 => rng.below(0x20000) as u32,
